@@ -147,15 +147,67 @@ def run(ctx):
     for i, clause in sorted(bad.items()):
         hist = ctx.trace_history(i)
         e = hist[-1]
-        fp = f"seq.{e['op']}/{clause}/mode=trace,w={hist[0]['w']}"
+        w_at = [x["w"] for x in hist if x["op"] in ("init", "set_width")][-1]
+        fp = f"seq.{e['op']}/{clause}/mode=trace,w={w_at}"
         ctx.violation(fp, f"recorded history (width {hist[0]['w']}, {len(hist)} calls): {short(e)} disagrees with the specification on {clause}",
-                      {"kind": "seq-history", "history": hist[-50:] if len(hist) > 50 else hist, "w": hist[0]["w"],
+                      {"kind": "seq-history", "history": hist[-50:] if len(hist) > 50 else hist, "w": hist[0]["w"], "w_at": w_at,
                        "calls_before": len(hist)})
     ctx.exhaustive = True
     ctx.extra["exhaustive_note"] = "all call/restart/fault interleavings for the listed small widths; long random histories beyond"
 
 
+def dv(r):
+    """returned count as its decimal digit string (ASCII codes): TLC integers are 32-bit, counters may be 64 bits wide"""
+    return {"vd": list(str(r["v"]).encode())} if isinstance(r, dict) and "v" in r else r
+
+
 def histories(ctx):
+    for e in histories_int(ctx):
+        if "ret" in e:
+            e["ret"] = dv(e["ret"])
+        yield e
+    yield from wide_histories(ctx)
+
+
+def wide_histories(ctx):
+    """Widths beyond TLC's integers, started near the places where decimal length, 2^31/2^32/2^53 or the modulus are crossed
+    (the file and the in-memory count are set to the start value through the file / the public count attribute)."""
+    from spacepackets.seqcount import SeqCountProvider
+    rng = ctx.rng
+    plan = []
+    for w in (20, 31, 32, 33, 40, 53, 54, 63, 64):
+        starts = {2 ** w - 3, 2 ** (w - 1) - 2} | {10 ** k - 2 for k in range(5, 20) if 10 ** k + 4 < 2 ** w}
+        starts |= {s for s in (2 ** 31 - 2, 2 ** 32 - 2, 2 ** 53 - 2) if s + 4 < 2 ** w}
+        for s in sorted(starts) if ctx.thorough else rng.sample(sorted(starts), min(len(starts), 5)) + [2 ** w - 3]:
+            plan.append((w, s))
+    for w, start in plan:
+        real = Real(ctx, w)
+        mem = SeqCountProvider(w)
+        real.set_file(MISSING)
+        yield {"op": "init", "w": w, "file": real.get_file()}
+        real.new_instance()
+        yield {"op": "restart", "ret": "none", "file": real.get_file()}
+        real.set_file({"c": list(f"{start}\n".encode())})
+        yield {"op": "scribble", "ret": "none", "file": real.get_file()}
+        mem.count = start
+        yield {"op": "set_mem", "vd": list(str(start).encode()), "ret": "none", "file": real.get_file()}
+        for i in range(7):
+            if i == 3 or rng.random() < 0.2:
+                real.new_instance()
+                yield {"op": "restart", "ret": "none", "file": real.get_file()}
+            yield {"op": "next_file", "ret": dv(real.call("next_file")), "file": real.get_file()}
+            yield {"op": "next_mem", "ret": dv(real.call("next_mem", mem)), "file": real.get_file()}
+            if rng.random() < 0.4:
+                yield {"op": "current", "ret": dv(real.call("current")), "file": real.get_file()}
+        # a stored count that is one too large / far too large for the width is refused
+        for bad in (2 ** w, 10 ** 20 + 7):
+            real.set_file({"c": list(f"{bad}\n".encode())})
+            yield {"op": "scribble", "ret": "none", "file": real.get_file()}
+            yield {"op": "next_file", "ret": dv(real.call("next_file")), "file": real.get_file()}
+        real.cleanup()
+
+
+def histories_int(ctx):
     from spacepackets.seqcount import SeqCountProvider
     from spacepackets.ccsds.spacepacket import PacketSeqCtrl, SequenceFlags
     rng = ctx.rng
@@ -184,7 +236,9 @@ def histories(ctx):
                     yield {"op": "restart", "ret": "none", "file": real.get_file()}
                 else:
                     keep = real.get_file()
-                    bad = rng.choice([b"", b"\n", b"abc\n", b"-5\n", str(2 ** w).encode() + b"\n", b"1.5\n", b" 7\n"])
+                    # (the last four: octets that are not text at all inside the count line)
+                    bad = rng.choice([b"", b"\n", b"abc\n", b"-5\n", str(2 ** w).encode() + b"\n", b"1.5\n", b" 7\n",
+                                      b"1\xff2\n", b"\xfe7\n", b"\xff\n", b"3\x80\n"])
                     real.set_file({"c": list(bad)})
                     yield {"op": "scribble", "ret": "none", "file": real.get_file()}
                     yield {"op": "next_file", "ret": real.call("next_file"), "file": real.get_file()}
@@ -239,9 +293,45 @@ def replay(r):
         ok = ret == r["expected_ret"] and post == r["expected"]
         return ok, (f"width {r['w']} path {short(r['path'], 1500)}\n expected ret {short(r['expected_ret'])} state {short(r['expected'])}"
                     f"\n observed ret {short(ret)} state {short(post)}")
-    # recorded history: re-run count of calls on fresh providers and check the modulo law directly
-    w = r["w"]
-    mem = SeqCountProvider(w)
-    vals = [mem.get_and_increment() for _ in range(2 ** w + 3)]
-    ok = vals == [i % (2 ** w) for i in range(2 ** w + 3)]
-    return ok, f"in-memory provider width {w}: last values {vals[-5:]}, expected {[i % (2 ** w) for i in range(2 ** w + 3)][-5:]}; recorded event: {short(r['history'][-1])}"
+    # recorded history: the last call is repeated on the state logged before it and judged by the counting rule
+    hist = r["history"]
+    w = r.get("w_at", r["w"])
+    e, before = hist[-1], (hist[-2] if len(hist) > 1 else None)
+    M = 2 ** w
+
+    def rule(content):
+        if "m" in content:
+            return {"exc": "notfound"}, None
+        line = bytes(content["c"]).split(b"\n")[0].rstrip(b" \t\n\r\x0b\x0c")
+        if not line or any(c not in b"0123456789" for c in line) or int(line) >= M:
+            return {"exc": "value"}, None
+        return {"vd": list(str(int(line)).encode())}, int(line)
+    if e["op"] in ("next_file", "current") and before is not None:
+        real = Real(C, w)
+        real.set_file(before["file"])
+        got = dv(real.call(e["op"]))
+        post = real.get_file()
+        real.cleanup()
+        want, v = rule(before["file"])
+        wfile = before["file"]
+        if v is not None and e["op"] == "next_file":
+            new = f"{(v + 1) % M}\n".encode()
+            old = bytes(before["file"]["c"])
+            wfile = {"c": list(new + old[len(new):])}
+        ok = got == want and post == wfile
+        return ok, (f"width {w}, file {short(before['file'])}: {e['op']} expected {short(want)} file {short(wfile)}, observed "
+                    f"{short(got)} file {short(post)}")
+    if e["op"] == "next_mem":
+        last = [x for x in hist[:-1] if x["op"] in ("next_mem", "set_mem")]
+        if last:
+            x = last[-1]
+            v0 = int(bytes(x["vd"] if x["op"] == "set_mem" else x["ret"]["vd"]))
+            mem = SeqCountProvider(w)
+            mem.count = v0 if x["op"] == "set_mem" else (v0 + 1) % M
+            got = mem.get_and_increment()
+            return got == mem_expected(x, v0, M), f"in-memory provider width {w}: after {short(x)} the call returned {got}"
+    return False, f"recorded event {short(e)} (width {w}) was rejected by the trace specification"
+
+
+def mem_expected(x, v0, M):
+    return v0 if x["op"] == "set_mem" else (v0 + 1) % M
